@@ -21,3 +21,8 @@ import LexVerif.Model.Ops.WriteFloat
 import LexVerif.Props.C09
 import LexVerif.Props.C14
 import LexVerif.Props.C17
+-- float-writer digit generators and power-of-two writers (dbox)
+import LexVerif.Model.Dragonbox
+import LexVerif.Model.Grisu
+import LexVerif.Model.WriteBinary
+import LexVerif.Model.Ops.WriteAlgos
